@@ -27,6 +27,18 @@ theorem table_ok : TableOK Gen.table = true := by decide
 
 theorem gravity_setters_ok : GravitySettersOK Gen.gravitySetters = true ∧ Gen.gravitySetters.length ≥ 4 := by decide
 
+/-- a class that keeps *lazy* cache entries of its own (computed-by = Infinity: valid until their depends-on stage is
+invalidated) must not have a parameter variable that invalidates only a later stage than such an entry depends on
+— otherwise a parameter change leaves the entry valid with stale contents.  Force::Gravity is exempt: its setters
+invalidate the entry explicitly (`gravity_setters_ok`).  This is what lets the model treat such elements
+(LinearBushing, CableSpring) as recomputed at every realization. -/
+def LazyOK (tbl : List FClass) : Bool :=
+  tbl.all (fun c => c.name == "Force::GravityImpl" ||
+    c.cacheStages.all (fun dc => dc.2 != 10 || c.paramStages.all (· ≤ dc.1)))
+
+/-- **obligation on the current source**: parameter stage ≤ depends-on stage of every lazy cache entry of the class -/
+theorem lazy_ok : LazyOK Gen.table = true := by decide
+
 /-- well-formed force list (what `TableOK` gives for forces that are instances of table rows) -/
 structure WF (fs : List Force) : Prop where
   grav : ∀ f ∈ fs, f.gravity = true → f.posOnly = false
